@@ -40,3 +40,5 @@ func NumGoroutines() int          { return 0 }
 func Note(s string)               {}
 func Flatten(v any) []uint64     { return nil }
 func FillSymbolic(ptr any)       {}
+func AllocMark()                  {}
+func AllocWithin(limit int) bool { return true }
